@@ -120,6 +120,8 @@ def h_event(cfg):
                 if second == 'succeed':
                     # 'same': the very value object of the first trigger (repeating a notification is still a second trigger)
                     E.succeed(E.value if cfg.get('second_same') and E.ok else V + 1)
+                elif second == 'fail-nonexc':
+                    E.fail('not an exception')         # already triggered: RuntimeError, whatever the argument is
                 else:
                     E.fail(E.value if cfg.get('second_same') and not E.ok else mkboom(V + 1))
                 fail('c02.second-trigger-raises', 'no RuntimeError')
@@ -343,6 +345,8 @@ def jobs(tier, seed):
                     js.append({'harness': 'event', 'weight': 4 ** len(ws),
                                'cfg': {'target': target, 'waiters': ws, 'sorts': 'int', 'exc': 'custom3'}})
         if not target.startswith('child'):
+            js.append({'harness': 'event', 'weight': 8,
+                       'cfg': {'target': target, 'waiters': [P], 'sorts': 'int', 'second': 'fail-nonexc', 'second_when': 'same-step'}})
             for sec in ('succeed', 'fail'):
                 js.append({'harness': 'event', 'weight': 8,
                            'cfg': {'target': target, 'waiters': [P], 'sorts': 'int', 'second': sec}})
